@@ -165,7 +165,83 @@ class CFG:
                     changed = True
         return dom
 
+    def postdominators(self):
+        """pdom[i] = set of blocks post-dominating i (virtual exit = every block without successors)."""
+        nodes = list(range(self.n))
+        exits = [i for i in nodes if not self.succ[i]]
+        pdom = {i: set(nodes) for i in nodes}
+        for e in exits:
+            pdom[e] = {e}
+        changed = True
+        while changed:
+            changed = False
+            for i in reversed(nodes):
+                if i in exits:
+                    continue
+                new = set.intersection(*(pdom[s] for s in self.succ[i])) | {i}
+                if new != pdom[i]:
+                    pdom[i] = new
+                    changed = True
+        return pdom
+
+    def control_deps(self):
+        """cd[b] = set of branching blocks s such that b is control-dependent on s (Ferrante et al.):
+        b post-dominates some successor of s but does not strictly post-dominate s."""
+        pdom = self.postdominators()
+        cd = {i: set() for i in range(self.n)}
+        for s in range(self.n):
+            if len(set(self.succ[s])) < 2:
+                continue
+            for t in set(self.succ[s]):
+                for b in pdom[t]:
+                    if b == s or b not in pdom[s]:
+                        cd[b].add(s)
+        return cd
+
     def must_pass(self, start, through, ends):
         """True iff every path from `start` to any block in `ends` passes through a block in `through`."""
         seen = self.reachable_from(start, avoid=through)
         return not (seen & set(ends))
+
+
+def decision_taint(fn, cfg, seed_locals):
+    """Locals and blocks whose value / execution depends on the seed locals, explicit (assignments, call arguments
+    → destination) and implicit (assignments in blocks control-dependent on a branch over a tainted local) flows.
+    Returns (tainted locals, blocks control-dependent (transitively) on a tainted branch)."""
+    cd = cfg.control_deps()
+    T = set(seed_locals)
+    ctl = set()
+    changed = True
+    while changed:
+        changed = False
+        tainted_branches = set()
+        for i, bb in enumerate(cfg.blocks):
+            t = bb["term"]
+            if t["k"] == "switch" and t.get("discr", {}).get("k") == "place" and t["discr"]["l"] in T:
+                tainted_branches.add(i)
+        new_ctl = {b for b in range(cfg.n) if cd[b] & (tainted_branches | ctl_sources(cd, ctl))}
+        if new_ctl - ctl:
+            ctl |= new_ctl
+            changed = True
+        for i, bb in enumerate(cfg.blocks):
+            for st in bb["stmts"]:
+                if st["k"] != "assign":
+                    continue
+                l = st["lhs"]["l"]
+                if l in T:
+                    continue
+                if i in ctl or any(o.get("k") == "place" and o["l"] in T for o in st.get("ops") or []):
+                    T.add(l)
+                    changed = True
+            t = bb["term"]
+            if t["k"] == "call" and t.get("dest"):
+                l = t["dest"]["l"]
+                if l not in T and (i in ctl or any(a.get("k") == "place" and a["l"] in T for a in t.get("args", []))):
+                    T.add(l)
+                    changed = True
+    return T, ctl
+
+
+def ctl_sources(cd, ctl):
+    """branching blocks that are themselves control-dependent on a tainted branch"""
+    return {s for s in ctl if any(s in deps for deps in cd.values())}
